@@ -159,3 +159,65 @@ pub fn shard<const N: usize, const KK: usize, const SYMPERM: bool>() {
     kani::cover!(n == 1 && !rc);
     core::mem::forget(pieces);
 }
+
+/// C07 (wrapper clause): the deprecated `simple_scan` builds its score from a permutation table and
+/// the rc flag. With an injective table: intervals tile the read with k-1 overlap, and every
+/// interval's bucket is the canonical form of the p-mer that minimises
+/// score(x) = rc ? min(perm[x], perm[rc x]) : perm[x] over the interval.
+#[allow(deprecated)]
+pub fn simple_scan<const N: usize, const KK: usize>() {
+    let seq = any_bases::<N>();
+    let k = KK;
+    let rc: bool = kani::any();
+    let perm: [usize; 16] = kani::any();
+    let mut a = 0;
+    while a < 16 {
+        kani::assume(perm[a] < 16);
+        let mut b = 0;
+        while b < a {
+            kani::assume(perm[a] != perm[b]);
+            b += 1;
+        }
+        a += 1;
+    }
+    let dna = DnaSlice(&seq);
+    let ivs = debruijn::msp::simple_scan::<_, Kmer2>(k, &dna, &perm, rc);
+    let sc = |x: usize| {
+        if rc {
+            core::cmp::min(perm[x], perm[rc2(x)])
+        } else {
+            perm[x]
+        }
+    };
+    let n = ivs.len();
+    assert!(n >= 1 && n <= N - k + 1);
+    let idx = any_index(n);
+    let mut next_start = 0usize;
+    let mut i = 0;
+    while i < n {
+        assert!(ivs[i].start() == next_start);
+        assert!(ivs[i].len() >= k && ivs[i].end() <= N);
+        assert!(ivs[i].range().end == ivs[i].end() && !ivs[i].is_empty());
+        next_start = ivs[i].start() + ivs[i].len() - (k - 1);
+        if i + 1 == n {
+            assert!(ivs[i].end() == N);
+        }
+        i += 1;
+    }
+    let iv = &ivs[idx];
+    // arg-min p-mer of the interval under the wrapper's score
+    let mut best = pmer(&seq, iv.start());
+    let mut q = iv.start() + 1;
+    while q + P <= iv.end() {
+        let x = pmer(&seq, q);
+        if sc(x) < sc(best) {
+            best = x;
+        }
+        q += 1;
+    }
+    let canon = core::cmp::min(best, rc2(best));
+    assert!(iv.bucket() as usize == canon);
+    kani::cover!(rc && n == 1);
+    kani::cover!(!rc);
+    core::mem::forget(ivs);
+}
